@@ -1028,6 +1028,29 @@ func (e *SpecEnv) call(x *spec.Call) Val {
 			vc.Assumed["A10: reflect enumerates exactly the exported methods go/types reports for *"+sl.Val] = true
 			return Val{T: B, Term: or(alts...)}
 		}
+	case "implements":
+		// implements(x, T): the dynamic type of the `any` / interface value x implements the interface type T
+		// (the same predicate an unchecked assertion x.(T) is obliged to establish)
+		if need(2) {
+			t, _, ok := e.resolveType(spec.TypeExpr{Kind: "name", Name: x.Args[1].String()})
+			if !ok || t == nil {
+				return e.fail(x, "implements: unknown type %s", x.Args[1].String())
+			}
+			if _, isIface := t.Underlying().(*types.Interface); !isIface {
+				return e.fail(x, "implements: %s is not an interface type", x.Args[1].String())
+			}
+			v := arg(0)
+			switch e.sortOf(v) {
+			case "Any":
+				vc.declareFun("implements", []string{"Any", "Int"}, "Bool")
+				return Val{T: B, Term: fmt.Sprintf("(implements %s %s)", e.termOf(v), vc.typeTag(t))}
+			case "Iface", "Err":
+				n := "implements_" + e.sortOf(v)
+				vc.declareFun(n, []string{e.sortOf(v), "Int"}, "Bool")
+				return Val{T: B, Term: fmt.Sprintf("(%s %s %s)", n, e.termOf(v), vc.typeTag(t))}
+			}
+			return e.fail(x, "implements: first argument must be an interface value")
+		}
 	case "boxed":
 		// boxed(x): x converted to `any`, as the conversion instruction boxes it
 		if need(1) {
